@@ -109,7 +109,11 @@ def run(rep, tier, seed):
     rep.notes["ideal_eval_docs"] = len(sd)
     cases, meta = [], {}
     for j, (d, p) in enumerate(zip(sd, preds)):
-        rec = {"doc": d["doc"], "lim": {"dl": d["dl"], "ll": d["ll"], "vl": d["vl"]}, "str": d["str"], "iv": d["iv"],
+        doc = d["doc"]
+        if d["iv"] >= 0:
+            lit = {"t": "lit", "x": "-", "v": d["iv"]}
+            doc = [mk(0, "var", asg=[["a", lit], ["b", lit]])] + doc
+        rec = {"doc": doc, "lim": {"dl": d["dl"], "ll": d["ll"], "vl": d["vl"]}, "str": d["str"], "iv": -1,
                "res": p["res"], "items": None, "refsok": p["refsok"]}
         c = interp.Conc(rec, random.Random(rnd.random()), wrap=False, indent=True)
         k = f"scaled-{j}"
